@@ -323,6 +323,13 @@ func Corpus(tier string, embedded []*Schema) []*Schema {
 		inner.field("leaf", 1, tString, "")
 		inner.msg.EnumType = append(inner.msg.EnumType, enum("Color", "RED", 0, "GREEN", 1))
 		inner.field("color", 2, tEnum, inner.path+".Color")
+		// a fourth nesting level, and json_name set explicitly (to something the default derivation would not give)
+		deepest := inner.nested("Deepest")
+		deepest.field("some_value", 1, tInt64, "")
+		deepest.msg.Field[0].JsonName = proto.String("custom_JSON.name")
+		deepest.repeated("more_values", 2, tString, "")
+		deepest.msg.Field[1].JsonName = proto.String("MoreValues")
+		inner.field("deepest", 3, tMessage, deepest.path)
 		mid.field("inner", 1, tMessage, inner.path)
 		mid.repeated("inners", 2, tMessage, inner.path)
 		outer.field("mid", 1, tMessage, mid.path)
@@ -799,6 +806,39 @@ func Corpus(tier string, embedded []*Schema) []*Schema {
 		dep(m.field("old_msg", 8, tMessage, old.path))
 		f.MessageType = append(f.MessageType, m.msg, old.msg)
 		add(&Schema{Name: "deprecated", Files: []*descriptorpb.FileDescriptorProto{f}})
+	}
+
+	// ---- plugin parameters other than features=: paths=source_relative, module=, M mappings; files to generate listed
+	// in reverse dependency order
+	{
+		pair := func(name string) (*descriptorpb.FileDescriptorProto, *descriptorpb.FileDescriptorProto) {
+			pa, pb := "vc."+name+".a", "vc."+name+".b"
+			fa := file("vc/"+name+"/a.proto", pa, goPkg(name, "a"))
+			fa.EnumType = append(fa.EnumType, enum("Kind", "KIND_UNSPECIFIED", 0, "KIND_X", 5))
+			am := newMsg(pa, "Shared")
+			am.field("id", 1, tUint64, "")
+			fa.MessageType = append(fa.MessageType, am.msg)
+			fb := file("vc/"+name+"/b.proto", pb, goPkg(name, "b"), "vc/"+name+"/a.proto")
+			bm := newMsg(pb, "User")
+			bm.field("shared", 1, tMessage, am.path)
+			bm.repeated("kinds", 2, tEnum, "."+pa+".Kind")
+			bm.mapField("by_id", 3, tUint64, tMessage, am.path)
+			o := bm.oneof("x")
+			bm.member(o, "x_shared", 4, tMessage, am.path)
+			bm.member(o, "x_kind", 5, tEnum, "."+pa+".Kind")
+			fb.MessageType = append(fb.MessageType, bm.msg)
+			return fa, fb
+		}
+		fa, fb := pair("srcrel")
+		add(&Schema{Name: "srcrel", Files: []*descriptorpb.FileDescriptorProto{fa, fb}, Param: "paths=source_relative",
+			OutMap: map[string]string{"vc/srcrel/a.pulsar.go": goPkg("srcrel", "a") + "/a.pulsar.go", "vc/srcrel/b.pulsar.go": goPkg("srcrel", "b") + "/b.pulsar.go"}})
+		fa, fb = pair("modopt")
+		add(&Schema{Name: "modopt", Files: []*descriptorpb.FileDescriptorProto{fa, fb}, Param: "module=" + CorpusModule + "/modopt",
+			OutMap: map[string]string{"a/a.pulsar.go": goPkg("modopt", "a") + "/a.pulsar.go", "b/b.pulsar.go": goPkg("modopt", "b") + "/b.pulsar.go"}})
+		fa, fb = pair("mmap")
+		add(&Schema{Name: "mmap", Files: []*descriptorpb.FileDescriptorProto{fa, fb}, Param: "Mvc/mmap/a.proto=" + goPkg("mmap", "a2") + ",features=protoc+fast"})
+		fa, fb = pair("revorder")
+		add(&Schema{Name: "revorder", Files: []*descriptorpb.FileDescriptorProto{fa, fb}, Generate: []string{"vc/revorder/b.proto", "vc/revorder/a.proto"}})
 	}
 
 	// ---- requests that must not produce code
